@@ -5,16 +5,18 @@ import QG.Lemmas.Calibration
 
 Property theorems only (helper lemmas: `QG/Lemmas/Calibration.lean`; model: `QG/Model/Calibration.lean`).
 
-`load zero L b` is the model of `DeviceParameters(L).load_from_backend(b)`: `L` the qubit layout (any list of
-labels: any length, any order, scattered, repeated), `b` the backend as the record of what the function reads
-from it, `zero` the `0.0` of `np.zeros`.  Calibration values are of an arbitrary type.  A dict is its item
-list and `d[k]` is `List.lookup k d`.
+`load zero L b` is the model of `DeviceParameters(L).load_from_backend(b)` as repaired by
+`notes/fixes/D25-mixed-two-qubit-basis.diff`: `L` the qubit layout (any list of labels: any length, any order,
+scattered, repeated), `b` the backend as the record of what the function reads from it, `zero` the `0.0` of
+`np.zeros`.  Calibration values are of an arbitrary type.  A dict is its item list and `d[k]` is `List.lookup k d`.
 
 Vocabulary of the statements:
 * `maxLabel L = some M`  — `M` is the largest requested label (`max_label_spec`);
-* `firstInt basis = some g` — `g` is the first basis entry that is `ecr` or `cx` (`native_gate_spec`): this is what
-  "the backend's native two-qubit gate" means for the code; for a basis holding only one of the two it is that one
-  (`native_gate_unmixed`);
+* `natives basis` — the supported two-qubit gates (`ecr`, `cx`) the basis lists, in basis order (`natives_spec`);
+* `calib b (i, j)` — the backend's native two-qubit gate values `(gate_error, gate_length)` of the ordered pair `(i, j)`:
+  the entry of the first supported gate of the basis whose calibration dict has the pair (`calib_eq_some_iff`);
+  `none` iff no supported gate of the basis calibrates the pair (`calib_eq_none_iff`); for a basis with a single
+  supported gate it is that gate's dict (`calib_single_gate`);
 * `entry t i j` — `t[i][j]`; `HasShape t n` — `t.shape == (n, n)`.
 -/
 namespace QG.C20
@@ -28,7 +30,12 @@ def entry (t : List (List Val)) (i j : Nat) : Option Val := t[i]? >>= fun row =>
 /-- `t.shape == (n, n)` -/
 def HasShape (t : List (List Val)) (n : Nat) : Prop := t.length = n ∧ ∀ row ∈ t, row.length = n
 
-/-- the calibration record of qubit `q` is complete as far as the four comprehensions before `dt` read it -/
+/-- the backend's native two-qubit gate values of an ordered pair: looked up in the calibration dicts of the supported
+gates of the basis, in basis order -/
+def calib (b : Backend Val) (k : Nat × Nat) : Option (Val × Val) :=
+  (natives b.basis).findSome? fun g => (List.lookup g b.gate2).bind (List.lookup k)
+
+/-- the calibration record of qubit `q` is incomplete as far as the four comprehensions before `dt` read it -/
 def MissingEarly (b : Backend Val) (q : Nat) : Prop :=
   List.lookup q b.t1 = none ∨ List.lookup q b.t2 = none ∨ List.lookup q b.xerr = none ∨ List.lookup q b.rerr = none
 
@@ -36,91 +43,71 @@ def MissingEarly (b : Backend Val) (q : Nat) : Prop :=
 noncomputable def verdict (L : List Nat) (b : Backend Val) : Option Err :=
   open Classical in
   if b.kind = .other then some .value                                   -- unsupported type: before anything is read
+  else if natives b.basis = [] then some .value                          -- no supported two-qubit gate: before the lookups
   else if ∃ q ∈ L, MissingEarly b q then some .property                  -- T1, T2, p, rout comprehensions
   else if b.dt = none then some .attribute                               -- config.dt
   else if ∃ q ∈ L, List.lookup q b.rlen = none then some .property       -- tm comprehension
   else if L = [] then some .value                                        -- np.max([])
-  else match firstInt b.basis with
-    | none => some .value                                                -- int_info is None
-    | some g => if List.lookup g b.gate2 = none then some .property else none   -- prop.gate_property(g)
+  else if ∃ g ∈ natives b.basis, List.lookup g b.gate2 = none then some .property   -- prop.gate_property(g)
+  else none
 
-/-! ### what a successful load looks like (helper, private) -/
+/-! ### what a successful load looks like (helpers, private) -/
+
+private theorem load_eq_core (zero : Val) (L : List Nat) (b : Backend Val) (hk : b.kind ≠ .other)
+    (hn : natives b.basis ≠ []) : load zero L b = loadCore zero L b (natives b.basis) := by
+  unfold load
+  cases hkk : b.kind
+  · cases hnn : natives b.basis with
+    | nil => exact absurd hnn hn
+    | cons g gs => rfl
+  · cases hnn : natives b.basis with
+    | nil => exact absurd hnn hn
+    | cons g gs => rfl
+  · exact absurd hkk hk
 
 private theorem load_ok_inv (zero : Val) (L : List Nat) (b : Backend Val) (r : Params Val)
     (h : load zero L b = .ok r) :
-    b.kind ≠ .other ∧ perQubit b.t1 L = .ok r.T1 ∧ perQubit b.t2 L = .ok r.T2 ∧ perQubit b.xerr L = .ok r.p ∧
+    b.kind ≠ .other ∧ natives b.basis ≠ [] ∧
+      perQubit b.t1 L = .ok r.T1 ∧ perQubit b.t2 L = .ok r.T2 ∧ perQubit b.xerr L = .ok r.p ∧
       perQubit b.rerr L = .ok r.rout ∧ perQubit b.rlen L = .ok r.tm ∧ (∃ d, b.dt = some d ∧ r.dt = [d]) ∧
-      ∃ M g G, maxLabel L = some M ∧ firstInt b.basis = some g ∧ List.lookup g b.gate2 = some G ∧
-        (r.p_int, r.t_int) = (if M + 1 > 1 then fill (M + 1) G G (zeros zero (M + 1), zeros zero (M + 1))
+      ∃ M Gs, maxLabel L = some M ∧ intInfos b.gate2 (natives b.basis) = .ok Gs ∧
+        (r.p_int, r.t_int) = (if M + 1 > 1 then fillAll (M + 1) Gs.reverse (zeros zero (M + 1), zeros zero (M + 1))
                               else (zeros zero (M + 1), zeros zero (M + 1))) := by
-  unfold load at h
   have hk : b.kind ≠ .other := by
-    intro hk; rw [hk] at h; cases h
-  have h' : (match perQubit b.t1 L with
-      | .error e => .error e
-      | .ok T1 =>
-      match perQubit b.t2 L with
-      | .error e => .error e
-      | .ok T2 =>
-      match perQubit b.xerr L with
-      | .error e => .error e
-      | .ok p =>
-      match perQubit b.rerr L with
-      | .error e => .error e
-      | .ok rout =>
-      match b.dt with
-      | none => .error .attribute
-      | some d =>
-      match perQubit b.rlen L with
-      | .error e => .error e
-      | .ok tm =>
-      match maxLabel L with
-      | none => .error .value
-      | some m =>
-      let mq := m + 1
-      let z := zeros zero mq
-      match intInfo b with
-      | .error e => .error e
-      | .ok none => .error .value
-      | .ok (some G) =>
-        let pt := if mq > 1 then fill mq G G (z, z) else (z, z)
-        .ok { T1 := T1, T2 := T2, p := p, rout := rout, tm := tm, dt := [d], p_int := pt.1, t_int := pt.2 }) =
-      (.ok r : Except Err (Params Val)) := by
-    cases hkk : b.kind <;> simp only [hkk] at h hk <;> first | exact h | exact absurd rfl hk
-  clear h
+    intro hk; unfold load at h; rw [hk] at h; cases h
+  have hn : natives b.basis ≠ [] := by
+    intro hn; unfold load at h; rw [hn] at h
+    cases hkk : b.kind <;> rw [hkk] at h <;> cases h
+  rw [load_eq_core zero L b hk hn] at h
+  unfold loadCore at h
   cases h1 : perQubit b.t1 L with
-  | error e => rw [h1] at h'; cases h'
+  | error e => rw [h1] at h; cases h
   | ok T1 =>
   cases h2 : perQubit b.t2 L with
-  | error e => rw [h1, h2] at h'; cases h'
+  | error e => rw [h1, h2] at h; cases h
   | ok T2 =>
   cases h3 : perQubit b.xerr L with
-  | error e => rw [h1, h2, h3] at h'; cases h'
+  | error e => rw [h1, h2, h3] at h; cases h
   | ok p =>
   cases h4 : perQubit b.rerr L with
-  | error e => rw [h1, h2, h3, h4] at h'; cases h'
+  | error e => rw [h1, h2, h3, h4] at h; cases h
   | ok rout =>
   cases h5 : b.dt with
-  | none => rw [h1, h2, h3, h4, h5] at h'; cases h'
+  | none => rw [h1, h2, h3, h4, h5] at h; cases h
   | some d =>
   cases h6 : perQubit b.rlen L with
-  | error e => rw [h1, h2, h3, h4, h5, h6] at h'; cases h'
+  | error e => rw [h1, h2, h3, h4, h5, h6] at h; cases h
   | ok tm =>
   cases h7 : maxLabel L with
-  | none => rw [h1, h2, h3, h4, h5, h6, h7] at h'; cases h'
+  | none => rw [h1, h2, h3, h4, h5, h6, h7] at h; cases h
   | some M =>
-  rw [h1, h2, h3, h4, h5, h6, h7] at h'
-  simp only at h'
-  unfold intInfo at h'
-  cases h8 : firstInt b.basis with
-  | none => simp [h8] at h'
-  | some g =>
-  cases h9 : List.lookup g b.gate2 with
-  | none => simp [h8, h9] at h'
-  | some G =>
-  simp only [h8, h9, Except.ok.injEq] at h'
-  subst h'
-  exact ⟨hk, rfl, rfl, rfl, rfl, rfl, ⟨d, rfl, rfl⟩, M, g, G, rfl, rfl, h9, rfl⟩
+  cases h8 : intInfos b.gate2 (natives b.basis) with
+  | error e => rw [h1, h2, h3, h4, h5, h6, h7] at h; simp [h8] at h
+  | ok Gs =>
+  rw [h1, h2, h3, h4, h5, h6, h7] at h
+  simp only [h8, Except.ok.injEq] at h
+  subst h
+  exact ⟨hk, hn, rfl, rfl, rfl, rfl, rfl, ⟨d, rfl, rfl⟩, M, Gs, rfl, rfl, rfl⟩
 
 /-! ### vocabulary lemmas -/
 
@@ -128,33 +115,57 @@ private theorem load_ok_inv (zero : Val) (L : List Nat) (b : Backend Val) (r : P
 theorem max_label_spec (L : List Nat) (M : Nat) : maxLabel L = some M ↔ M ∈ L ∧ ∀ q ∈ L, q ≤ M :=
   maxLabel_eq_some_iff L M
 
-/-- `firstInt basis = some g` says: `g` is `ecr` or `cx`, it occurs in the basis, and no `ecr`/`cx` occurs before it -/
-theorem native_gate_spec (basis : List String) (g : String) :
-    firstInt basis = some g ↔
-      ∃ pre post, basis = pre ++ g :: post ∧ (g = "ecr" ∨ g = "cx") ∧ ∀ x ∈ pre, x ≠ "ecr" ∧ x ≠ "cx" :=
-  firstInt_eq_some_iff basis g
+/-- the supported gates of a basis are its entries `ecr` / `cx` (kept in basis order: `natives` is a `filter`) -/
+theorem natives_spec (basis : List String) (g : String) :
+    g ∈ natives basis ↔ g ∈ basis ∧ (g = "ecr" ∨ g = "cx") :=
+  mem_natives_iff basis g
 
-/-- a basis with only one of the two supported gates selects that gate, wherever it stands -/
-theorem native_gate_unmixed (basis : List String) :
-    ("ecr" ∈ basis → "cx" ∉ basis → firstInt basis = some "ecr") ∧
-    ("cx" ∈ basis → "ecr" ∉ basis → firstInt basis = some "cx") := by
+/-- "zero elsewhere": `calib` has no value for a pair iff no supported gate of the basis calibrates it -/
+theorem calib_eq_none_iff (b : Backend Val) (k : Nat × Nat) :
+    calib b k = none ↔ ∀ g ∈ natives b.basis, ∀ G, List.lookup g b.gate2 = some G → List.lookup k G = none := by
+  unfold calib
+  rw [List.findSome?_eq_none_iff]
   constructor
-  · intro h1 h2
-    cases h : firstInt basis with
-    | none => exact absurd rfl ((firstInt_eq_none_iff basis).mp h _ h1).1
-    | some g =>
-      obtain ⟨pre, post, hb, hg, _⟩ := (firstInt_eq_some_iff basis g).mp h
-      rcases hg with rfl | rfl
-      · rfl
-      · exact absurd (by simp [hb]) h2
-  · intro h1 h2
-    cases h : firstInt basis with
-    | none => exact absurd rfl ((firstInt_eq_none_iff basis).mp h _ h1).2
-    | some g =>
-      obtain ⟨pre, post, hb, hg, _⟩ := (firstInt_eq_some_iff basis g).mp h
-      rcases hg with rfl | rfl
-      · exact absurd (by simp [hb]) h2
-      · rfl
+  · intro h g hg G hG
+    have := h g hg
+    rwa [hG] at this
+  · intro h g hg
+    cases hG : List.lookup g b.gate2 with
+    | none => rfl
+    | some G => exact h g hg G hG
+
+/-- `calib` has the value `v` for a pair iff some supported gate of the basis calibrates it with `v` and no supported
+gate standing earlier in the basis calibrates the pair at all -/
+theorem calib_eq_some_iff (b : Backend Val) (k : Nat × Nat) (v : Val × Val) :
+    calib b k = some v ↔ ∃ pre g post G, natives b.basis = pre ++ g :: post ∧ List.lookup g b.gate2 = some G ∧
+      List.lookup k G = some v ∧ ∀ g' ∈ pre, ∀ G', List.lookup g' b.gate2 = some G' → List.lookup k G' = none := by
+  unfold calib
+  rw [List.findSome?_eq_some_iff]
+  constructor
+  · rintro ⟨pre, g, post, hb, hv, hpre⟩
+    cases hG : List.lookup g b.gate2 with
+    | none => rw [hG] at hv; cases hv
+    | some G =>
+      rw [hG] at hv
+      refine ⟨pre, g, post, G, hb, hG, hv, ?_⟩
+      intro g' hg' G' hG'
+      have := hpre g' hg'
+      rwa [hG'] at this
+  · rintro ⟨pre, g, post, G, hb, hG, hv, hpre⟩
+    refine ⟨pre, g, post, hb, by rw [hG]; exact hv, ?_⟩
+    intro g' hg'
+    cases hG' : List.lookup g' b.gate2 with
+    | none => rfl
+    | some G' => exact hpre g' hg' G' hG'
+
+/-- a basis with a single supported gate (every bundled device but FakeCairoV2): `calib` is that gate's dict -/
+theorem calib_single_gate (b : Backend Val) (g : String) (G : List ((Nat × Nat) × (Val × Val)))
+    (hb : natives b.basis = [g]) (hG : List.lookup g b.gate2 = some G) (k : Nat × Nat) :
+    calib b k = List.lookup k G := by
+  unfold calib
+  rw [hb]
+  simp only [List.findSome?_cons, hG, Option.bind_some, List.findSome?_nil]
+  cases List.lookup k G <;> rfl
 
 /-! ### the per-qubit values -/
 
@@ -169,7 +180,7 @@ theorem per_qubit_spec (zero : Val) (L : List Nat) (b : Backend Val) (r : Params
     r.rout.map some = L.map (fun q => List.lookup q b.rerr) ∧
     r.tm.map some = L.map (fun q => List.lookup q b.rlen) ∧
     ∃ d, b.dt = some d ∧ r.dt = [d] := by
-  obtain ⟨_, h1, h2, h3, h4, h5, hd, _⟩ := load_ok_inv zero L b r h
+  obtain ⟨_, _, h1, h2, h3, h4, h5, hd, _⟩ := load_ok_inv zero L b r h
   exact ⟨(perQubit_ok_iff _ _ _).mp h1, (perQubit_ok_iff _ _ _).mp h2, (perQubit_ok_iff _ _ _).mp h3,
     (perQubit_ok_iff _ _ _).mp h4, (perQubit_ok_iff _ _ _).mp h5, hd⟩
 
@@ -201,51 +212,43 @@ theorem per_qubit_at (zero : Val) (L : List Nat) (b : Backend Val) (r : Params V
 theorem table_shape (zero : Val) (L : List Nat) (b : Backend Val) (r : Params Val)
     (h : load zero L b = .ok r) :
     ∃ M, maxLabel L = some M ∧ HasShape r.p_int (M + 1) ∧ HasShape r.t_int (M + 1) := by
-  obtain ⟨_, _, _, _, _, _, _, M, g, G, hM, _, _, hpt⟩ := load_ok_inv zero L b r h
+  obtain ⟨_, _, _, _, _, _, _, _, M, Gs, hM, _, hpt⟩ := load_ok_inv zero L b r h
   refine ⟨M, hM, ?_⟩
   have hz := square_zeros zero (M + 1)
   split at hpt
-  · have := fill_square (M + 1) (M + 1) G G _ _ hz hz
+  · have := fillAll_square (M + 1) (M + 1) Gs.reverse _ _ hz hz
     rw [← hpt] at this
     exact this
   · simp only [Prod.mk.injEq] at hpt
     rw [hpt.1, hpt.2]
     exact ⟨hz, hz⟩
 
-/-- **C20, table clause (exact form).**  Let `M` be the largest requested label, `g` the native gate and `G` its
-calibration dict (ordered pair ↦ (gate_error, gate_length)).  For all `i, j ≤ M`: if `M ≥ 1`, `p_int[i][j]` is the
-backend's gate error of the ordered pair `(i, j)` when that pair is coupled (a key of `G`) and `zero` otherwise, and
-`t_int[i][j]` likewise the gate length.  If `M = 0` (every requested label is 0) the guard `max_qubit > 1` skips the
-loop and the only cell holds `zero`.  Pairs with an index above `M` are outside the tables (`table_shape`). -/
+/-- **C20, table clause (exact form).**  Let `M` be the largest requested label.  For all `i, j ≤ M`: if `M ≥ 1`,
+`p_int[i][j]` is the backend's native two-qubit gate error of the ordered pair `(i, j)` (`calib`: the value under the
+first supported gate of the basis that calibrates the pair — on a mixed cx/ecr device every pair calibrated with either
+gate is imported) and `zero` when no supported gate of the basis calibrates the pair; `t_int[i][j]` likewise the gate
+length.  If `M = 0` (every requested label is 0) the guard `max_qubit > 1` skips the loop and the only cell holds
+`zero`.  Pairs with an index above `M` are outside the tables (`table_shape`). -/
 theorem table_spec (zero : Val) (L : List Nat) (b : Backend Val) (r : Params Val)
-    (h : load zero L b = .ok r) (M : Nat) (hM : maxLabel L = some M) (g : String)
-    (hg : firstInt b.basis = some g) (G : List ((Nat × Nat) × (Val × Val))) (hG : List.lookup g b.gate2 = some G)
-    (i j : Nat) (hi : i ≤ M) (hj : j ≤ M) :
-    entry r.p_int i j = some (if 1 ≤ M then ((List.lookup (i, j) G).map (·.1)).getD zero else zero) ∧
-    entry r.t_int i j = some (if 1 ≤ M then ((List.lookup (i, j) G).map (·.2)).getD zero else zero) := by
-  obtain ⟨_, _, _, _, _, _, _, M', g', G', hM', hg', hG', hpt⟩ := load_ok_inv zero L b r h
+    (h : load zero L b = .ok r) (M : Nat) (hM : maxLabel L = some M) (i j : Nat) (hi : i ≤ M) (hj : j ≤ M) :
+    entry r.p_int i j = some (if 1 ≤ M then ((calib b (i, j)).map (·.1)).getD zero else zero) ∧
+    entry r.t_int i j = some (if 1 ≤ M then ((calib b (i, j)).map (·.2)).getD zero else zero) := by
+  obtain ⟨_, _, _, _, _, _, _, _, M', Gs, hM', hGs, hpt⟩ := load_ok_inv zero L b r h
   rw [hM] at hM'; cases hM'
-  rw [hg] at hg'; cases hg'
-  rw [hG] at hG'; cases hG'
+  have hcal : firstHit Gs (i, j) = calib b (i, j) :=
+    firstHit_eq_findSome b.gate2 (natives b.basis) Gs ((intInfos_ok_iff _ _ _).mp hGs) (i, j)
   have hz := square_zeros zero (M + 1)
   have hcz := cell_zeros zero (M + 1) i j (by omega) (by omega)
   by_cases h1 : 1 ≤ M
   · have hgt : M + 1 > 1 := by omega
     simp only [hgt, if_true] at hpt
-    obtain ⟨c1, c2⟩ := cell_fill (M + 1) (by omega) G G _ _ hz hz
-      (fun x hx => lookup_isSome_of_mem G x hx) i j (by omega) (by omega)
-    have e1 : r.p_int = (fill (M + 1) G G (zeros zero (M + 1), zeros zero (M + 1))).1 := by rw [← hpt]
-    have e2 : r.t_int = (fill (M + 1) G G (zeros zero (M + 1), zeros zero (M + 1))).2 := by rw [← hpt]
+    obtain ⟨c1, c2⟩ := cell_fillAll_reverse (M + 1) (by omega) Gs _ _ hz hz i j (by omega) (by omega)
+    have e1 : r.p_int = (fillAll (M + 1) Gs.reverse (zeros zero (M + 1), zeros zero (M + 1))).1 := by rw [← hpt]
+    have e2 : r.t_int = (fillAll (M + 1) Gs.reverse (zeros zero (M + 1), zeros zero (M + 1))).2 := by rw [← hpt]
     simp only [h1, if_true]
     change cell r.p_int i j = _ ∧ cell r.t_int i j = _
-    rw [e1, e2, c1, c2, hcz]
-    cases hl : List.lookup (i, j) G with
-    | none =>
-      have : (i, j) ∉ G.map (·.1) := by rw [mem_keys_iff_lookup_isSome, hl]; simp
-      simp [this]
-    | some v =>
-      have : (i, j) ∈ G.map (·.1) := by rw [mem_keys_iff_lookup_isSome, hl]; rfl
-      simp [this]
+    rw [e1, e2, c1, c2, hcz, hcal]
+    cases calib b (i, j) <;> simp
   · have hgt : ¬ (M + 1 > 1) := by omega
     simp only [hgt, if_false, Prod.mk.injEq] at hpt
     simp only [h1, if_false]
@@ -255,25 +258,27 @@ theorem table_spec (zero : Val) (L : List Nat) (b : Backend Val) (r : Params Val
 
 /-- **C20, table clause as the property words it**, for every layout including the single qubit labelled 0: when no
 two-qubit gate record couples a qubit with itself (true of every device: a two-qubit gate acts on two qubits), the
-guard is invisible and each cell inside the tables holds the backend's value of its ordered pair if the pair is
-coupled and `zero` elsewhere. -/
+guard is invisible and each cell inside the tables holds the backend's native two-qubit gate value of its ordered pair
+if some supported gate of the basis calibrates the pair, and `zero` elsewhere. -/
 theorem table_spec_no_self_pair (zero : Val) (L : List Nat) (b : Backend Val) (r : Params Val)
-    (h : load zero L b = .ok r) (M : Nat) (hM : maxLabel L = some M) (g : String)
-    (hg : firstInt b.basis = some g) (G : List ((Nat × Nat) × (Val × Val))) (hG : List.lookup g b.gate2 = some G)
-    (hself : ∀ x ∈ G, x.1.1 ≠ x.1.2) (i j : Nat) (hi : i ≤ M) (hj : j ≤ M) :
-    entry r.p_int i j = some (((List.lookup (i, j) G).map (·.1)).getD zero) ∧
-    entry r.t_int i j = some (((List.lookup (i, j) G).map (·.2)).getD zero) := by
-  have := table_spec zero L b r h M hM g hg G hG i j hi hj
+    (h : load zero L b = .ok r) (M : Nat) (hM : maxLabel L = some M)
+    (hself : ∀ g ∈ natives b.basis, ∀ G, List.lookup g b.gate2 = some G → ∀ x ∈ G, x.1.1 ≠ x.1.2)
+    (i j : Nat) (hi : i ≤ M) (hj : j ≤ M) :
+    entry r.p_int i j = some (((calib b (i, j)).map (·.1)).getD zero) ∧
+    entry r.t_int i j = some (((calib b (i, j)).map (·.2)).getD zero) := by
+  have := table_spec zero L b r h M hM i j hi hj
   by_cases h1 : 1 ≤ M
   · simpa [h1] using this
   · have hi0 : i = 0 := by omega
     have hj0 : j = 0 := by omega
     subst hi0 hj0
-    have hnone : List.lookup (0, 0) G = none := by
+    have hnone : calib b (0, 0) = none := by
+      rw [calib_eq_none_iff]
+      intro g hg G hG
       by_contra hne
       have hs : (List.lookup (0, 0) G).isSome := Option.isSome_iff_ne_none.mpr hne
       obtain ⟨x, hx, hx0⟩ := List.mem_map.mp ((mem_keys_iff_lookup_isSome G (0, 0)).mpr hs)
-      have := hself x hx
+      have := hself g hg G hG x hx
       rw [hx0] at this
       exact this rfl
     simpa [h1, hnone] using this
@@ -281,7 +286,7 @@ theorem table_spec_no_self_pair (zero : Val) (L : List Nat) (b : Backend Val) (r
 /-- the single-qubit case with label 0 spelled out: the tables are the 1×1 zero table whatever the backend holds -/
 theorem table_single_label_zero (zero : Val) (L : List Nat) (b : Backend Val) (r : Params Val)
     (h : load zero L b = .ok r) (hM : maxLabel L = some 0) : r.p_int = [[zero]] ∧ r.t_int = [[zero]] := by
-  obtain ⟨_, _, _, _, _, _, _, M', g', G', hM', _, _, hpt⟩ := load_ok_inv zero L b r h
+  obtain ⟨_, _, _, _, _, _, _, _, M', Gs, hM', _, hpt⟩ := load_ok_inv zero L b r h
   rw [hM] at hM'; cases hM'
   simp only [Nat.zero_add, gt_iff_lt, Nat.lt_irrefl, if_false, Prod.mk.injEq] at hpt
   rw [hpt.1, hpt.2]
@@ -289,7 +294,8 @@ theorem table_single_label_zero (zero : Val) (L : List Nat) (b : Backend Val) (r
 
 /-! ### rejection and the order of the checks -/
 
-/-- **which outcome wins**: the model ends in exactly the exception `verdict` names, and returns iff it names none -/
+/-- **which outcome wins**: the model ends in exactly the exception `verdict` names, and returns iff it names none.
+Both rejections of the property come before any calibration value is read. -/
 theorem error_order (zero : Val) (L : List Nat) (b : Backend Val) :
     match load zero L b with
     | .error e => verdict L b = some e
@@ -311,55 +317,32 @@ theorem error_order (zero : Val) (L : List Nat) (b : Backend Val) :
   unfold verdict
   by_cases hk : b.kind = .other
   · simp [load, hk]
-  have hload : load zero L b = (match perQubit b.t1 L with
-      | .error e => .error e
-      | .ok T1 =>
-      match perQubit b.t2 L with
-      | .error e => .error e
-      | .ok T2 =>
-      match perQubit b.xerr L with
-      | .error e => .error e
-      | .ok p =>
-      match perQubit b.rerr L with
-      | .error e => .error e
-      | .ok rout =>
-      match b.dt with
-      | none => .error .attribute
-      | some d =>
-      match perQubit b.rlen L with
-      | .error e => .error e
-      | .ok tm =>
-      match maxLabel L with
-      | none => .error .value
-      | some m =>
-      let mq := m + 1
-      let z := zeros zero mq
-      match intInfo b with
-      | .error e => .error e
-      | .ok none => .error .value
-      | .ok (some G) =>
-        let pt := if mq > 1 then fill mq G G (z, z) else (z, z)
-        .ok { T1 := T1, T2 := T2, p := p, rout := rout, tm := tm, dt := [d], p_int := pt.1, t_int := pt.2 }) := by
-    unfold load
-    cases hkk : b.kind <;> simp only [hkk] at hk ⊢ <;> first | rfl | exact absurd trivial hk
-  rw [hload]
-  simp only [hk, if_false]
-  rcases pq b.t1 with ⟨T1, h1, c1⟩ | ⟨h1, q, hq, hn⟩
+  by_cases hn : natives b.basis = []
+  · have : load zero L b = .error .value := by
+      unfold load
+      rw [hn]
+      cases hkk : b.kind <;> rfl
+    rw [this]
+    simp only [hk, hn, if_false, if_true]
+  rw [load_eq_core zero L b hk hn]
+  unfold loadCore
+  simp only [hk, hn, if_false]
+  rcases pq b.t1 with ⟨T1, h1, c1⟩ | ⟨h1, q, hq, hm⟩
   swap
-  · have : ∃ q ∈ L, MissingEarly b q := ⟨q, hq, Or.inl hn⟩
-    simp [h1, this]
-  rcases pq b.t2 with ⟨T2, h2, c2⟩ | ⟨h2, q, hq, hn⟩
+  · have : ∃ q ∈ L, MissingEarly b q := ⟨q, hq, Or.inl hm⟩
+    simp only [h1, this, if_true]
+  rcases pq b.t2 with ⟨T2, h2, c2⟩ | ⟨h2, q, hq, hm⟩
   swap
-  · have : ∃ q ∈ L, MissingEarly b q := ⟨q, hq, Or.inr (Or.inl hn)⟩
-    simp [h1, h2, this]
-  rcases pq b.xerr with ⟨p, h3, c3⟩ | ⟨h3, q, hq, hn⟩
+  · have : ∃ q ∈ L, MissingEarly b q := ⟨q, hq, Or.inr (Or.inl hm)⟩
+    simp only [h1, h2, this, if_true]
+  rcases pq b.xerr with ⟨p, h3, c3⟩ | ⟨h3, q, hq, hm⟩
   swap
-  · have : ∃ q ∈ L, MissingEarly b q := ⟨q, hq, Or.inr (Or.inr (Or.inl hn))⟩
-    simp [h1, h2, h3, this]
-  rcases pq b.rerr with ⟨rout, h4, c4⟩ | ⟨h4, q, hq, hn⟩
+  · have : ∃ q ∈ L, MissingEarly b q := ⟨q, hq, Or.inr (Or.inr (Or.inl hm))⟩
+    simp only [h1, h2, h3, this, if_true]
+  rcases pq b.rerr with ⟨rout, h4, c4⟩ | ⟨h4, q, hq, hm⟩
   swap
-  · have : ∃ q ∈ L, MissingEarly b q := ⟨q, hq, Or.inr (Or.inr (Or.inr hn))⟩
-    simp [h1, h2, h3, h4, this]
+  · have : ∃ q ∈ L, MissingEarly b q := ⟨q, hq, Or.inr (Or.inr (Or.inr hm))⟩
+    simp only [h1, h2, h3, h4, this, if_true]
   have hearly : ¬ ∃ q ∈ L, MissingEarly b q := by
     rintro ⟨q, hq, h | h | h | h⟩
     · exact c1 q hq h
@@ -368,12 +351,12 @@ theorem error_order (zero : Val) (L : List Nat) (b : Backend Val) :
     · exact c4 q hq h
   simp only [h1, h2, h3, h4, hearly, if_false]
   cases h5 : b.dt with
-  | none => simp
+  | none => simp only [if_true]
   | some d =>
   simp only [reduceCtorEq, if_false]
-  rcases pq b.rlen with ⟨tm, h6, c6⟩ | ⟨h6, q, hq, hn⟩
+  rcases pq b.rlen with ⟨tm, h6, c6⟩ | ⟨h6, q, hq, hm⟩
   swap
-  · have : ∃ q ∈ L, List.lookup q b.rlen = none := ⟨q, hq, hn⟩
+  · have : ∃ q ∈ L, List.lookup q b.rlen = none := ⟨q, hq, hm⟩
     simp only [h6, this, if_true]
   have hlate : ¬ ∃ q ∈ L, List.lookup q b.rlen = none := by
     rintro ⟨q, hq, h⟩; exact c6 q hq h
@@ -381,18 +364,22 @@ theorem error_order (zero : Val) (L : List Nat) (b : Backend Val) :
   cases h7 : maxLabel L with
   | none =>
     have : L = [] := (maxLabel_eq_none_iff L).mp h7
-    simp [this]
+    simp only [this, if_true]
   | some M =>
   have hne : L ≠ [] := by
     intro e; rw [e] at h7; cases h7
   simp only [hne, if_false]
-  unfold intInfo
-  cases h8 : firstInt b.basis with
-  | none => simp only []
-  | some g =>
-  cases h9 : List.lookup g b.gate2 with
-  | none => simp only [h9, if_true]
-  | some G => simp only [h9, reduceCtorEq, if_false]
+  cases h8 : intInfos b.gate2 (natives b.basis) with
+  | error e =>
+    obtain ⟨rfl, hg⟩ := (intInfos_error_iff _ _ _).mp h8
+    simp only [hg, if_true]
+  | ok Gs =>
+    have hg : ¬ ∃ g ∈ natives b.basis, List.lookup g b.gate2 = none := by
+      rintro ⟨g, hg, hnone⟩
+      have := (intInfos_error_iff b.gate2 (natives b.basis) .property).mpr ⟨rfl, g, hg, hnone⟩
+      rw [h8] at this
+      cases this
+    simp only [hg, if_false]
 
 /-- **C20, rejection clause (type).**  A backend of an unsupported type is rejected with `ValueError`, whatever the
 layout and whatever else the object holds. -/
@@ -401,61 +388,31 @@ theorem rejects_unsupported_type (zero : Val) (L : List Nat) (b : Backend Val) (
   simp [load, hk]
 
 /-- **C20, rejection clause (no supported two-qubit gate).**  A backend whose basis holds neither `ecr` nor `cx` is
-always rejected; the exception is `ValueError` whenever the calibration record of every requested qubit is complete
-and the configuration has a `dt` (otherwise the accessor's error, which is raised earlier, wins: `error_order`). -/
+rejected with `ValueError` for EVERY layout and whatever its calibration record holds or lacks. -/
 theorem rejects_no_native_gate (zero : Val) (L : List Nat) (b : Backend Val)
-    (hb : ∀ x ∈ b.basis, x ≠ "ecr" ∧ x ≠ "cx") :
-    (∃ e, load zero L b = .error e) ∧
-    ((∀ q ∈ L, ¬ MissingEarly b q ∧ List.lookup q b.rlen ≠ none) → b.dt ≠ none → load zero L b = .error .value) := by
-  have hfi : firstInt b.basis = none := (firstInt_eq_none_iff b.basis).mpr hb
-  have ho := error_order zero L b
-  have hv : verdict L b ≠ none := by
-    unfold verdict
-    simp only [hfi]
-    split_ifs <;> simp
-  constructor
-  · cases hl : load zero L b with
-    | error e => exact ⟨e, rfl⟩
-    | ok r => rw [hl] at ho; exact absurd ho hv
-  · intro hc hdt
-    cases hl : load zero L b with
-    | ok r => rw [hl] at ho; exact absurd ho hv
-    | error e =>
-      rw [hl] at ho
-      simp only at ho
-      have : verdict L b = some .value := by
-        unfold verdict
-        simp only [hfi]
-        have h1 : ¬ ∃ q ∈ L, MissingEarly b q := fun ⟨q, hq, hm⟩ => (hc q hq).1 hm
-        have h2 : ¬ ∃ q ∈ L, List.lookup q b.rlen = none := fun ⟨q, hq, hm⟩ => (hc q hq).2 hm
-        simp only [h1, h2, hdt, if_false]
-        split_ifs <;> rfl
-      rw [this] at ho
-      cases ho
-      rfl
+    (hb : ∀ x ∈ b.basis, x ≠ "ecr" ∧ x ≠ "cx") : load zero L b = .error .value := by
+  have hn : natives b.basis = [] := (natives_eq_nil_iff b.basis).mpr hb
+  unfold load
+  rw [hn]
+  cases b.kind <;> rfl
 
-/-- the import succeeds exactly on: a supported type, a non-empty layout whose qubits all have a complete calibration
-record, a `dt`, and a native gate (`ecr`/`cx` in the basis) with a calibration dict -/
+/-- the import succeeds exactly on: a supported type, a basis with a supported two-qubit gate each of which has a
+calibration dict, a non-empty layout whose qubits all have a complete calibration record, and a `dt` -/
 theorem load_ok_iff (zero : Val) (L : List Nat) (b : Backend Val) :
     (∃ r, load zero L b = .ok r) ↔
-      b.kind ≠ .other ∧ L ≠ [] ∧ (∀ q ∈ L, ¬ MissingEarly b q ∧ List.lookup q b.rlen ≠ none) ∧ b.dt ≠ none ∧
-        ∃ g G, firstInt b.basis = some g ∧ List.lookup g b.gate2 = some G := by
+      b.kind ≠ .other ∧ natives b.basis ≠ [] ∧ L ≠ [] ∧
+        (∀ q ∈ L, ¬ MissingEarly b q ∧ List.lookup q b.rlen ≠ none) ∧ b.dt ≠ none ∧
+        ∀ g ∈ natives b.basis, List.lookup g b.gate2 ≠ none := by
   have ho := error_order zero L b
   constructor
   · rintro ⟨r, hr⟩
     rw [hr] at ho
     simp only at ho
     unfold verdict at ho
-    split_ifs at ho with a1 a2 a3 a4 a5
-    refine ⟨a1, a5, fun q hq => ⟨fun hm => a2 ⟨q, hq, hm⟩, fun hm => a4 ⟨q, hq, hm⟩⟩, a3, ?_⟩
-    cases h8 : firstInt b.basis with
-    | none => rw [h8] at ho; cases ho
-    | some g =>
-      rw [h8] at ho
-      simp only at ho
-      split_ifs at ho with a6
-      exact ⟨g, (List.lookup g b.gate2).get (Option.isSome_iff_ne_none.mpr a6), rfl, by simp⟩
-  · rintro ⟨a1, a5, hc, a3, g, G, hg, hG⟩
+    split_ifs at ho with a1 a0 a2 a3 a4 a5 a6
+    exact ⟨a1, a0, a5, fun q hq => ⟨fun hm => a2 ⟨q, hq, hm⟩, fun hm => a4 ⟨q, hq, hm⟩⟩, a3,
+      fun g hg hm => a6 ⟨g, hg, hm⟩⟩
+  · rintro ⟨a1, a0, a5, hc, a3, a6⟩
     cases hl : load zero L b with
     | ok r => exact ⟨r, rfl⟩
     | error e =>
@@ -465,7 +422,8 @@ theorem load_ok_iff (zero : Val) (L : List Nat) (b : Backend Val) :
         unfold verdict
         have h1 : ¬ ∃ q ∈ L, MissingEarly b q := fun ⟨q, hq, hm⟩ => (hc q hq).1 hm
         have h2 : ¬ ∃ q ∈ L, List.lookup q b.rlen = none := fun ⟨q, hq, hm⟩ => (hc q hq).2 hm
-        simp only [a1, a5, a3, h1, h2, hg, hG, if_false, reduceCtorEq]
+        have h3 : ¬ ∃ g ∈ natives b.basis, List.lookup g b.gate2 = none := fun ⟨g, hg, hm⟩ => a6 g hg hm
+        simp only [a1, a0, a5, a3, h1, h2, h3, if_false]
       rw [this] at ho
       cases ho
 
@@ -492,10 +450,37 @@ example : load 0 [3, 0, 3, 2] dev5 = .ok
       t_int := [[0, 2001, 0, 0], [2010, 0, 2012, 2013], [0, 2021, 0, 0], [0, 2031, 0, 0]] } := by
   decide
 
-/-- the hypotheses of `table_spec` / `table_spec_no_self_pair` are met by this device and layout -/
-example : maxLabel [3, 0, 3, 2] = some 3 ∧ firstInt dev5.basis = some "cx" ∧
-    (∃ G, List.lookup "cx" dev5.gate2 = some G ∧ ∀ x ∈ G, x.1.1 ≠ x.1.2) := by
-  refine ⟨by decide, by decide, _, rfl, by decide⟩
+/-- the hypotheses of `table_spec` / `table_spec_no_self_pair` / `calib_single_gate` are met by this device and layout -/
+example : maxLabel [3, 0, 3, 2] = some 3 ∧ natives dev5.basis = ["cx"] ∧
+    (∀ g ∈ natives dev5.basis, ∀ G, List.lookup g dev5.gate2 = some G → ∀ x ∈ G, x.1.1 ≠ x.1.2) := by
+  refine ⟨by decide, by decide, ?_⟩
+  intro g hg G hG
+  have : g = "cx" := by simpa [show natives dev5.basis = ["cx"] by decide] using hg
+  subst this
+  have : G = [(0, 1), (1, 0), (1, 2), (2, 1), (1, 3), (3, 1), (3, 4), (4, 3)].map fun k =>
+      (k, (1000 + 10 * k.1 + k.2, 2000 + 10 * k.1 + k.2)) := by
+    have h' : List.lookup "cx" dev5.gate2 = some _ := rfl
+    rw [h'] at hG
+    exact (Option.some.inj hG).symm
+  subst this
+  decide
+
+/-- a MIXED device (the FakeCairoV2 situation): the basis lists `cx` before `ecr`; pairs 0-1 are calibrated with `cx`,
+the pairs (1,2) and (3,2) with `ecr`, and the pair (0,1) additionally carries an `ecr` record -/
+private def mixed4 : Backend Nat :=
+  { kind := .v2, t1 := col 100, t2 := col 200, xerr := col 300, rerr := col 400, rlen := col 500, dt := some 7,
+    basis := ["cx", "ecr", "id", "rz", "sx", "x"],
+    gate2 := [("ecr", [((1, 2), (12, 120)), ((3, 2), (32, 320)), ((0, 1), (99, 990))]),
+              ("cx", [((0, 1), (1, 10)), ((1, 0), (10, 100))])] }
+
+/-- every pair calibrated with either gate is imported; on the pair calibrated with both, the gate that comes first in
+the basis (`cx`) wins; `calib` is what the table holds -/
+example : (load 0 [3, 0] mixed4).toOption.map (fun r => (r.p_int, r.t_int)) = some
+      ([[0, 1, 0, 0], [10, 0, 12, 0], [0, 0, 0, 0], [0, 0, 32, 0]],
+       [[0, 10, 0, 0], [100, 0, 120, 0], [0, 0, 0, 0], [0, 0, 320, 0]]) ∧
+    natives mixed4.basis = ["cx", "ecr"] ∧
+    calib mixed4 (1, 2) = some (12, 120) ∧ calib mixed4 (0, 1) = some (1, 10) ∧ calib mixed4 (2, 3) = none := by
+  decide
 
 /-- single qubit labelled 0: 1×1 zero tables; single qubit labelled 2: the loop runs and fills the pairs below 3 -/
 example : (load 0 [0] dev5).toOption.map (fun r => (r.T1, r.p_int, r.t_int)) = some ([100], [[0]], [[0]]) ∧
@@ -508,18 +493,23 @@ at zero, which is why `table_spec` carries `if 1 ≤ M` and `table_spec_no_self_
 example : (load 0 [0] { dev5 with gate2 := [("cx", [((0, 0), (9, 9))])] }).toOption.map (·.p_int) = some [[0]] := by
   decide
 
-/-- rejections, and which error wins: unsupported type before everything; a missing calibration before the missing
-native gate; no native gate; `ecr` named by the basis but absent from the properties; empty layout -/
-example : load 0 [0, 9] { dev5 with kind := .other } = .error .value ∧
-    load 0 [0, 9] { dev5 with basis := ["cz", "id"] } = .error .property ∧
-    load 0 [0, 4] { dev5 with basis := ["cz", "id"] } = .error .value ∧
-    load 0 [0, 4] { dev5 with basis := ["ecr", "cx"] } = .error .property ∧
+/-- rejections, and which error wins: unsupported type before everything; then the missing supported gate, also
+for a layout naming a qubit the device does not have; a missing calibration value; a missing `dt`; an empty layout;
+`ecr` named by the basis but absent from the properties (last) -/
+example : load 0 [0, 9] { dev5 with kind := .other, basis := [] } = .error .value ∧
+    load 0 [0, 9] { dev5 with basis := ["cz", "id"] } = .error .value ∧
+    load 0 [] { dev5 with basis := ["cz", "id"], dt := none } = .error .value ∧
+    load 0 [0, 9] dev5 = .error .property ∧
+    load 0 [0, 9] { dev5 with dt := none } = .error .property ∧
     load 0 [0, 4] { dev5 with dt := none } = .error .attribute ∧
-    load 0 [] dev5 = .error .value := by
+    load 0 [] dev5 = .error .value ∧
+    load 0 [] { dev5 with basis := ["cx", "ecr"] } = .error .value ∧
+    load 0 [0, 4] { dev5 with basis := ["cx", "ecr"] } = .error .property := by
   decide
 
-/-- the hypotheses of `rejects_no_native_gate` (both parts) and of `table_single_label_zero` are satisfiable: a basis
-without `ecr`/`cx`; requested qubits with a complete calibration record and a `dt`; a layout whose largest label is 0 -/
+/-- the hypotheses of `rejects_no_native_gate`, of the right-hand side of `load_ok_iff` and of
+`table_single_label_zero` are satisfiable: a basis without `ecr`/`cx`; requested qubits with a complete calibration
+record and a `dt`; a layout whose largest label is 0 -/
 example : (∀ x ∈ ["cz", "id", "rz", "sx", "x"], x ≠ "ecr" ∧ x ≠ "cx") ∧
     (∀ q ∈ [0, 4], ¬ MissingEarly dev5 q ∧ List.lookup q dev5.rlen ≠ none) ∧ dev5.dt ≠ none ∧
     maxLabel [0, 0] = some 0 := by
